@@ -7,6 +7,7 @@ package main
 // (annotations, allocatable). Oracle: independent arithmetic on the instance-type vector.
 
 import (
+	"time"
 	"context"
 	"encoding/json"
 	"fmt"
@@ -40,7 +41,8 @@ import (
 func init() {
 	register("C19", &checkDef{level: "exploration", fn: runC19,
 		batches:  func(th bool) int { return map[bool]int{false: 2, true: 8}[th] },
-		parallel: func(th bool) int { return 2 },
+		parallel: func(th bool) int { return map[bool]int{false: 2, true: 8}[th] },
+		timeout:  func(th bool) time.Duration { return map[bool]time.Duration{false: 30 * time.Minute, true: 90 * time.Minute}[th] },
 	})
 }
 
